@@ -27,7 +27,8 @@ func (m PropagateMatchersOptimizer) Optimize(expr parser.Expr) parser.Expr {
 		}
 
 		// TODO(fpetkovski): Investigate support for vector matching on a subset of labels.
-		if binOp.VectorMatching != nil && len(binOp.VectorMatching.MatchingLabels) > 0 {
+		// With on() the operands are matched on no label at all, so nothing can be propagated.
+		if binOp.VectorMatching != nil && (binOp.VectorMatching.On || len(binOp.VectorMatching.MatchingLabels) > 0) {
 			return
 		}
 
